@@ -271,11 +271,28 @@ fn suffix(w0: &World, slow_snap: bool, ctx: &mut Ctx) -> Outcome {
         lr.raft.raft_log.committed,
     );
     if lcommit < fresh {
+        // circumstance of recorded finding F6: followers whose pending snapshot request names
+        // an index beyond the leader's commit index refuse every append until a snapshot at
+        // that index arrives, and without them no quorum is left to commit it
+        let requesters: BTreeSet<u64> = (0..n)
+            .filter(|i| w.live(*i).map(|l| l.rn.raft.pending_request_snapshot > lcommit).unwrap_or(false))
+            .map(|i| i as u64 + 1)
+            .collect();
+        let others: BTreeSet<u64> = (0..n)
+            .filter(|i| w.live(*i).is_some() && !requesters.contains(&(*i as u64 + 1)))
+            .map(|i| i as u64 + 1)
+            .collect();
+        let tag = if !requesters.is_empty() && !lconf.is_quorum(&others) {
+            " [a follower's pending snapshot request names an uncommitted index that cannot commit without that follower]"
+        } else {
+            ""
+        };
         return Outcome::Failed(format!(
-            "the fresh entry {} is not committed on the leader {} (commit {})\n{}",
+            "the fresh entry {} is not committed on the leader {} (commit {}){}\n{}",
             fresh,
             li + 1,
             lcommit,
+            tag,
             w.describe()
         ));
     }
